@@ -47,7 +47,10 @@ fn compare(m: &Map, r: &Ref, nkeys: u8) -> Vec<(&'static str, String)> {
         bad.push(("len", format!("len {} want {}", m.len(), n)));
     }
     if m.is_empty() != (n == 0) {
-        bad.push(("is_empty", format!("is_empty {} want {}", m.is_empty(), n == 0)));
+        bad.push((
+            "is_empty",
+            format!("is_empty {} want {}", m.is_empty(), n == 0),
+        ));
     }
     for k in 0..nkeys {
         let want = r.iter().position(|e| e.0 == k);
@@ -56,17 +59,26 @@ fn compare(m: &Map, r: &Ref, nkeys: u8) -> Vec<(&'static str, String)> {
             bad.push(("get", format!("get({}) = {:?} want {:?}", k, m.get(&k), wv)));
         }
         if m.contains_key(&k) != want.is_some() {
-            bad.push(("contains_key", format!("contains_key({}) = {}", k, m.contains_key(&k))));
+            bad.push((
+                "contains_key",
+                format!("contains_key({}) = {}", k, m.contains_key(&k)),
+            ));
         }
         if m.get_index(&k) != want {
-            bad.push(("get_index", format!("get_index({}) = {:?} want {:?}", k, m.get_index(&k), want)));
+            bad.push((
+                "get_index",
+                format!("get_index({}) = {:?} want {:?}", k, m.get_index(&k), want),
+            ));
         }
     }
     for i in 0..n + 2 {
         let want = r.get(i).map(|e| (e.0, e.1));
         let got = m.get_pair(i).map(|(k, v)| (*k, *v));
         if got != want {
-            bad.push(("get_pair", format!("get_pair({}) = {:?} want {:?}", i, got, want)));
+            bad.push((
+                "get_pair",
+                format!("get_pair({}) = {:?} want {:?}", i, got, want),
+            ));
         }
     }
     let keys: Vec<u8> = m.keys().copied().collect();
@@ -81,9 +93,16 @@ fn compare(m: &Map, r: &Ref, nkeys: u8) -> Vec<(&'static str, String)> {
     let iit: Vec<(usize, u8, u32)> = m.indexed_iter().map(|(i, (k, v))| (i, *k, *v)).collect();
     let wiit: Vec<(usize, u8, u32)> = r.iter().enumerate().map(|(i, e)| (i, e.0, e.1)).collect();
     if iit != wiit {
-        bad.push(("indexed_iter", format!("indexed_iter {:?} want {:?}", iit, wiit)));
+        bad.push((
+            "indexed_iter",
+            format!("indexed_iter {:?} want {:?}", iit, wiit),
+        ));
     }
-    let tv: Vec<String> = m.to_vec().iter().map(|(k, e)| format!("{}:{:?}", k, e)).collect();
+    let tv: Vec<String> = m
+        .to_vec()
+        .iter()
+        .map(|(k, e)| format!("{}:{:?}", k, e))
+        .collect();
     let wtv: Vec<String> = r
         .iter()
         .enumerate()
@@ -92,14 +111,24 @@ fn compare(m: &Map, r: &Ref, nkeys: u8) -> Vec<(&'static str, String)> {
     if tv != wtv {
         bad.push(("to_vec", format!("to_vec {:?} want {:?}", tv, wtv)));
     }
-    let ii: Vec<String> = m.clone().into_iter().map(|(k, e)| format!("{}:{:?}", k, e)).collect();
+    let ii: Vec<String> = m
+        .clone()
+        .into_iter()
+        .map(|(k, e)| format!("{}:{:?}", k, e))
+        .collect();
     if ii != wtv {
         bad.push(("into_iter", format!("into_iter {:?} want {:?}", ii, wtv)));
     }
     bad
 }
 
-fn report(st: &mut Stats, component: &str, bad: Vec<(&'static str, String)>, size: u64, case: &dyn Fn() -> Value) {
+fn report(
+    st: &mut Stats,
+    component: &str,
+    bad: Vec<(&'static str, String)>,
+    size: u64,
+    case: &dyn Fn() -> Value,
+) {
     let mut seen = HashSet::new();
     for (clause, detail) in bad {
         if seen.insert(clause) {
@@ -144,12 +173,32 @@ fn container_bfs(st: &mut Stats, nkeys: u8) {
             let overwrite = want_ret.is_some();
             // the failure site is named by the number of entries the map holds after the step
             let component = if overwrite {
-                format!("compact_map.overwrite.n{}", if r2.len() > 5 { "6plus".to_string() } else { r2.len().to_string() })
+                format!(
+                    "compact_map.overwrite.n{}",
+                    if r2.len() > 5 {
+                        "6plus".to_string()
+                    } else {
+                        r2.len().to_string()
+                    }
+                )
             } else {
-                format!("compact_map.insert.n{}", if r2.len() > 5 { "6plus".to_string() } else { r2.len().to_string() })
+                format!(
+                    "compact_map.insert.n{}",
+                    if r2.len() > 5 {
+                        "6plus".to_string()
+                    } else {
+                        r2.len().to_string()
+                    }
+                )
             };
             if got_ret != want_ret {
-                st.violation(&component, "insert_return", size, || format!("insert({}) returned {:?} want {:?}", k, got_ret, want_ret), &case);
+                st.violation(
+                    &component,
+                    "insert_return",
+                    size,
+                    || format!("insert({}) returned {:?} want {:?}", k, got_ret, want_ret),
+                    &case,
+                );
             } else {
                 st.pass("insert_return");
             }
@@ -204,9 +253,17 @@ fn container_ctor(st: &mut Stats, nkeys: u8, tier: Tier) {
     // new(list) / collect(list) for distinct-key lists, then up to 2 further inserts
     let max_len = tier.pick(6usize, 7usize);
     for l in lists(nkeys.min(7), max_len, true) {
-        let entries: Vec<(u8, u32)> = l.iter().enumerate().map(|(i, k)| (*k, 1000 + i as u32)).collect();
+        let entries: Vec<(u8, u32)> = l
+            .iter()
+            .enumerate()
+            .map(|(i, k)| (*k, 1000 + i as u32))
+            .collect();
         let size = l.len() as u64;
-        for (ctor, comp) in [(0, "compact_map.new"), (1, "compact_map.collect"), (2, "compact_map.from_vec")] {
+        for (ctor, comp) in [
+            (0, "compact_map.new"),
+            (1, "compact_map.collect"),
+            (2, "compact_map.from_vec"),
+        ] {
             st.evaluations += 1;
             st.transitions += 1;
             st.traces += 1;
@@ -226,7 +283,15 @@ fn container_ctor(st: &mut Stats, nkeys: u8, tier: Tier) {
                     continue;
                 }
             };
-            let component = format!("{}.n{}", comp, if l.len() > 5 { "6plus".to_string() } else { l.len().to_string() });
+            let component = format!(
+                "{}.n{}",
+                comp,
+                if l.len() > 5 {
+                    "6plus".to_string()
+                } else {
+                    l.len().to_string()
+                }
+            );
             let bad = compare(&m, &entries, nkeys);
             if bad.is_empty() {
                 st.pass("ctor_equals_reference");
@@ -241,7 +306,15 @@ fn container_ctor(st: &mut Stats, nkeys: u8, tier: Tier) {
                 st.transitions += 1;
                 let lc = l.clone();
                 let case1 = move || json!({"kind": "ctor_then_insert", "ctor": comp, "keys": lc, "then": [k1]});
-                let component = format!("{}_then_insert.n{}", comp, if r1.len() > 5 { "6plus".to_string() } else { r1.len().to_string() });
+                let component = format!(
+                    "{}_then_insert.n{}",
+                    comp,
+                    if r1.len() > 5 {
+                        "6plus".to_string()
+                    } else {
+                        r1.len().to_string()
+                    }
+                );
                 let mut bad = compare(&m1, &r1, nkeys);
                 if ret != want {
                     bad.push(("insert_return", format!("{:?} want {:?}", ret, want)));
@@ -259,7 +332,15 @@ fn container_ctor(st: &mut Stats, nkeys: u8, tier: Tier) {
                         st.transitions += 1;
                         let lc = l.clone();
                         let case2 = move || json!({"kind": "ctor_then_insert", "ctor": comp, "keys": lc, "then": [k1, k2]});
-                        let component = format!("{}_then_insert.n{}", comp, if r2.len() > 5 { "6plus".to_string() } else { r2.len().to_string() });
+                        let component = format!(
+                            "{}_then_insert.n{}",
+                            comp,
+                            if r2.len() > 5 {
+                                "6plus".to_string()
+                            } else {
+                                r2.len().to_string()
+                            }
+                        );
                         let mut bad = compare(&m2, &r2, nkeys);
                         if ret != want {
                             bad.push(("insert_return", format!("{:?} want {:?}", ret, want)));
@@ -281,7 +362,11 @@ fn container_ctor(st: &mut Stats, nkeys: u8, tier: Tier) {
         if d.len() == l.len() {
             continue;
         }
-        let entries: Vec<(u8, u32)> = l.iter().enumerate().map(|(i, k)| (*k, 1000 + i as u32)).collect();
+        let entries: Vec<(u8, u32)> = l
+            .iter()
+            .enumerate()
+            .map(|(i, k)| (*k, 1000 + i as u32))
+            .collect();
         let mut r: Ref = vec![];
         for (k, v) in entries.iter() {
             ref_insert(&mut r, *k, *v);
@@ -329,13 +414,40 @@ enum Feat {
 impl Feat {
     fn feature(&self) -> StateFeature {
         match self {
-            Feat::Dist(u, i) => StateFeature::Distance { distance_unit: *u, initial: Distance::new(*i) },
-            Feat::Time(u, i) => StateFeature::Time { time_unit: *u, initial: Time::new(*i) },
-            Feat::Energy(u, i) => StateFeature::Energy { energy_unit: *u, initial: Energy::new(*i) },
-            Feat::F64(i) => StateFeature::Custom { r#type: "f".into(), unit: "x".into(), format: CustomFeatureFormat::FloatingPoint { initial: OrderedFloat(*i) } },
-            Feat::I64(i) => StateFeature::Custom { r#type: "i".into(), unit: "x".into(), format: CustomFeatureFormat::SignedInteger { initial: *i } },
-            Feat::U64(i) => StateFeature::Custom { r#type: "u".into(), unit: "x".into(), format: CustomFeatureFormat::UnsignedInteger { initial: *i } },
-            Feat::Bool(i) => StateFeature::Custom { r#type: "b".into(), unit: "x".into(), format: CustomFeatureFormat::Boolean { initial: *i } },
+            Feat::Dist(u, i) => StateFeature::Distance {
+                distance_unit: *u,
+                initial: Distance::new(*i),
+            },
+            Feat::Time(u, i) => StateFeature::Time {
+                time_unit: *u,
+                initial: Time::new(*i),
+            },
+            Feat::Energy(u, i) => StateFeature::Energy {
+                energy_unit: *u,
+                initial: Energy::new(*i),
+            },
+            Feat::F64(i) => StateFeature::Custom {
+                r#type: "f".into(),
+                unit: "x".into(),
+                format: CustomFeatureFormat::FloatingPoint {
+                    initial: OrderedFloat(*i),
+                },
+            },
+            Feat::I64(i) => StateFeature::Custom {
+                r#type: "i".into(),
+                unit: "x".into(),
+                format: CustomFeatureFormat::SignedInteger { initial: *i },
+            },
+            Feat::U64(i) => StateFeature::Custom {
+                r#type: "u".into(),
+                unit: "x".into(),
+                format: CustomFeatureFormat::UnsignedInteger { initial: *i },
+            },
+            Feat::Bool(i) => StateFeature::Custom {
+                r#type: "b".into(),
+                unit: "x".into(),
+                format: CustomFeatureFormat::Boolean { initial: *i },
+            },
         }
     }
     fn initial(&self) -> f64 {
@@ -377,16 +489,41 @@ fn alphabet() -> Vec<Feat> {
 }
 
 /// checks one built state model against the declared features (names f0.. in `names`, declared order when `ordered`)
-fn check_model(st: &mut Stats, component: &str, sm: &StateModel, names: &[String], feats: &[Feat], ordered: bool, case: &dyn Fn() -> Value) {
+fn check_model(
+    st: &mut Stats,
+    component: &str,
+    sm: &StateModel,
+    names: &[String],
+    feats: &[Feat],
+    ordered: bool,
+    case: &dyn Fn() -> Value,
+) {
     let n = feats.len();
     let size = n as u64;
-    let comp = format!("{}.n{}", component, if n > 5 { "6plus".to_string() } else { n.to_string() });
+    let comp = format!(
+        "{}.n{}",
+        component,
+        if n > 5 {
+            "6plus".to_string()
+        } else {
+            n.to_string()
+        }
+    );
     let component = comp.as_str();
     if sm.len() != n {
-        st.violation(component, "len", size, || format!("len {} want {}", sm.len(), n), case);
+        st.violation(
+            component,
+            "len",
+            size,
+            || format!("len {} want {}", sm.len(), n),
+            case,
+        );
     }
     // slots: indexed_iter yields a bijection names <-> 0..n-1
-    let slots: Vec<(usize, String)> = sm.indexed_iter().map(|(i, (k, _))| (i, k.clone())).collect();
+    let slots: Vec<(usize, String)> = sm
+        .indexed_iter()
+        .map(|(i, (k, _))| (i, k.clone()))
+        .collect();
     let mut ok = slots.len() == n;
     let mut seen_names = HashSet::new();
     for (pos, (i, k)) in slots.iter().enumerate() {
@@ -400,7 +537,13 @@ fn check_model(st: &mut Stats, component: &str, sm: &StateModel, names: &[String
     if ok {
         st.pass("slots_are_0_to_n_minus_1");
     } else {
-        st.violation(component, "slots_are_0_to_n_minus_1", size, || format!("indexed_iter gives {:?} for declared {:?}", slots, names), case);
+        st.violation(
+            component,
+            "slots_are_0_to_n_minus_1",
+            size,
+            || format!("indexed_iter gives {:?} for declared {:?}", slots, names),
+            case,
+        );
     }
     // initial state
     let init = match guarded(|| sm.initial_state()) {
@@ -415,7 +558,19 @@ fn check_model(st: &mut Stats, component: &str, sm: &StateModel, names: &[String
         }
     };
     if init.len() != n {
-        st.violation(component, "initial_state_has_n_entries", size, || format!("initial_state has {} entries for {} features", init.len(), n), case);
+        st.violation(
+            component,
+            "initial_state_has_n_entries",
+            size,
+            || {
+                format!(
+                    "initial_state has {} entries for {} features",
+                    init.len(),
+                    n
+                )
+            },
+            case,
+        );
         return;
     }
     st.pass("initial_state_has_n_entries");
@@ -427,7 +582,21 @@ fn check_model(st: &mut Stats, component: &str, sm: &StateModel, names: &[String
             None => continue,
         };
         if init[slot].0 != f.initial() {
-            st.violation(component, "initial_value_in_own_slot", size, || format!("feature {} slot {} holds {} want {}", name, slot, init[slot].0, f.initial()), case);
+            st.violation(
+                component,
+                "initial_value_in_own_slot",
+                size,
+                || {
+                    format!(
+                        "feature {} slot {} holds {} want {}",
+                        name,
+                        slot,
+                        init[slot].0,
+                        f.initial()
+                    )
+                },
+                case,
+            );
             continue;
         }
         st.pass("initial_value_in_own_slot");
@@ -436,17 +605,28 @@ fn check_model(st: &mut Stats, component: &str, sm: &StateModel, names: &[String
             match f {
                 Feat::Dist(fu, _) => {
                     for u in crate::refmodel::units::DISTANCE_UNITS.iter() {
-                        sm.set_distance(&mut s, name, &Distance::new(12.0), u).map_err(|e| e.to_string())?;
-                        let back = sm.get_distance(&s, name, u).map_err(|e| e.to_string())?.as_f64();
+                        sm.set_distance(&mut s, name, &Distance::new(12.0), u)
+                            .map_err(|e| e.to_string())?;
+                        let back = sm
+                            .get_distance(&s, name, u)
+                            .map_err(|e| e.to_string())?
+                            .as_f64();
                         if !close(back, 12.0, 2e-3) {
                             return Err(format!("set/get distance in {} gives {}", u, back));
                         }
                         let want_feature = crate::refmodel::units::distance(12.0, u, fu);
                         if !close(s[slot].0, want_feature, 2e-3) {
-                            return Err(format!("slot holds {} want {} {}", s[slot].0, want_feature, fu));
+                            return Err(format!(
+                                "slot holds {} want {} {}",
+                                s[slot].0, want_feature, fu
+                            ));
                         }
-                        sm.add_distance(&mut s, name, &Distance::new(3.0), u).map_err(|e| e.to_string())?;
-                        let back = sm.get_distance(&s, name, u).map_err(|e| e.to_string())?.as_f64();
+                        sm.add_distance(&mut s, name, &Distance::new(3.0), u)
+                            .map_err(|e| e.to_string())?;
+                        let back = sm
+                            .get_distance(&s, name, u)
+                            .map_err(|e| e.to_string())?
+                            .as_f64();
                         if !close(back, 15.0, 2e-3) {
                             return Err(format!("add distance in {} gives {}", u, back));
                         }
@@ -454,17 +634,28 @@ fn check_model(st: &mut Stats, component: &str, sm: &StateModel, names: &[String
                 }
                 Feat::Time(fu, _) => {
                     for u in crate::refmodel::units::TIME_UNITS.iter() {
-                        sm.set_time(&mut s, name, &Time::new(12.0), u).map_err(|e| e.to_string())?;
-                        let back = sm.get_time(&s, name, u).map_err(|e| e.to_string())?.as_f64();
+                        sm.set_time(&mut s, name, &Time::new(12.0), u)
+                            .map_err(|e| e.to_string())?;
+                        let back = sm
+                            .get_time(&s, name, u)
+                            .map_err(|e| e.to_string())?
+                            .as_f64();
                         if !close(back, 12.0, 2e-3) {
                             return Err(format!("set/get time in {} gives {}", u, back));
                         }
                         let want_feature = crate::refmodel::units::time(12.0, u, fu);
                         if !close(s[slot].0, want_feature, 2e-3) {
-                            return Err(format!("slot holds {} want {} {}", s[slot].0, want_feature, fu));
+                            return Err(format!(
+                                "slot holds {} want {} {}",
+                                s[slot].0, want_feature, fu
+                            ));
                         }
-                        sm.add_time(&mut s, name, &Time::new(3.0), u).map_err(|e| e.to_string())?;
-                        let back = sm.get_time(&s, name, u).map_err(|e| e.to_string())?.as_f64();
+                        sm.add_time(&mut s, name, &Time::new(3.0), u)
+                            .map_err(|e| e.to_string())?;
+                        let back = sm
+                            .get_time(&s, name, u)
+                            .map_err(|e| e.to_string())?
+                            .as_f64();
                         if !close(back, 15.0, 2e-3) {
                             return Err(format!("add time in {} gives {}", u, back));
                         }
@@ -472,41 +663,53 @@ fn check_model(st: &mut Stats, component: &str, sm: &StateModel, names: &[String
                 }
                 Feat::Energy(_, _) => {
                     for u in crate::refmodel::units::ENERGY_UNITS.iter() {
-                        sm.set_energy(&mut s, name, &Energy::new(12.0), u).map_err(|e| e.to_string())?;
-                        let back = sm.get_energy(&s, name, u).map_err(|e| e.to_string())?.as_f64();
+                        sm.set_energy(&mut s, name, &Energy::new(12.0), u)
+                            .map_err(|e| e.to_string())?;
+                        let back = sm
+                            .get_energy(&s, name, u)
+                            .map_err(|e| e.to_string())?
+                            .as_f64();
                         if !close(back, 12.0, 2e-3) {
                             return Err(format!("set/get energy in {} gives {}", u, back));
                         }
-                        sm.add_energy(&mut s, name, &Energy::new(3.0), u).map_err(|e| e.to_string())?;
-                        let back = sm.get_energy(&s, name, u).map_err(|e| e.to_string())?.as_f64();
+                        sm.add_energy(&mut s, name, &Energy::new(3.0), u)
+                            .map_err(|e| e.to_string())?;
+                        let back = sm
+                            .get_energy(&s, name, u)
+                            .map_err(|e| e.to_string())?
+                            .as_f64();
                         if !close(back, 15.0, 2e-3) {
                             return Err(format!("add energy in {} gives {}", u, back));
                         }
                     }
                 }
                 Feat::F64(_) => {
-                    sm.set_custom_f64(&mut s, name, &-2.5).map_err(|e| e.to_string())?;
+                    sm.set_custom_f64(&mut s, name, &-2.5)
+                        .map_err(|e| e.to_string())?;
                     let b = sm.get_custom_f64(&s, name).map_err(|e| e.to_string())?;
                     if b != -2.5 {
                         return Err(format!("custom f64 round trip gives {}", b));
                     }
                 }
                 Feat::I64(_) => {
-                    sm.set_custom_i64(&mut s, name, &-9).map_err(|e| e.to_string())?;
+                    sm.set_custom_i64(&mut s, name, &-9)
+                        .map_err(|e| e.to_string())?;
                     let b = sm.get_custom_i64(&s, name).map_err(|e| e.to_string())?;
                     if b != -9 {
                         return Err(format!("custom i64 round trip gives {}", b));
                     }
                 }
                 Feat::U64(_) => {
-                    sm.set_custom_u64(&mut s, name, &9).map_err(|e| e.to_string())?;
+                    sm.set_custom_u64(&mut s, name, &9)
+                        .map_err(|e| e.to_string())?;
                     let b = sm.get_custom_u64(&s, name).map_err(|e| e.to_string())?;
                     if b != 9 {
                         return Err(format!("custom u64 round trip gives {}", b));
                     }
                 }
                 Feat::Bool(_) => {
-                    sm.set_custom_bool(&mut s, name, &false).map_err(|e| e.to_string())?;
+                    sm.set_custom_bool(&mut s, name, &false)
+                        .map_err(|e| e.to_string())?;
                     let b = sm.get_custom_bool(&s, name).map_err(|e| e.to_string())?;
                     if b {
                         return Err("custom bool round trip gives true".to_string());
@@ -517,7 +720,13 @@ fn check_model(st: &mut Stats, component: &str, sm: &StateModel, names: &[String
         });
         match r {
             Ok(Ok(())) => st.pass("get_set_add_round_trip"),
-            Ok(Err(e)) => st.violation(component, "get_set_add_round_trip", size, || format!("feature {}: {}", name, e), case),
+            Ok(Err(e)) => st.violation(
+                component,
+                "get_set_add_round_trip",
+                size,
+                || format!("feature {}: {}", name, e),
+                case,
+            ),
             Err(p) => st.violation(component, "no_panic", size, || p.clone(), case),
         }
         // only the own slot changed
@@ -525,7 +734,18 @@ fn check_model(st: &mut Stats, component: &str, sm: &StateModel, names: &[String
         if others_untouched {
             st.pass("update_touches_only_own_slot");
         } else {
-            st.violation(component, "update_touches_only_own_slot", size, || format!("updating {} (slot {}) changed {:?} -> {:?}", name, slot, init, s), case);
+            st.violation(
+                component,
+                "update_touches_only_own_slot",
+                size,
+                || {
+                    format!(
+                        "updating {} (slot {}) changed {:?} -> {:?}",
+                        name, slot, init, s
+                    )
+                },
+                case,
+            );
         }
     }
 }
@@ -538,10 +758,20 @@ impl TraversalModel for DeclaringModel {
     fn state_features(&self) -> Vec<(String, StateFeature)> {
         self.feats.clone()
     }
-    fn traverse_edge(&self, _: (&Vertex, &Edge, &Vertex), _: &mut Vec<StateVar>, _: &StateModel) -> Result<(), TraversalModelError> {
+    fn traverse_edge(
+        &self,
+        _: (&Vertex, &Edge, &Vertex),
+        _: &mut Vec<StateVar>,
+        _: &StateModel,
+    ) -> Result<(), TraversalModelError> {
         Ok(())
     }
-    fn estimate_traversal(&self, _: (&Vertex, &Vertex), _: &mut Vec<StateVar>, _: &StateModel) -> Result<(), TraversalModelError> {
+    fn estimate_traversal(
+        &self,
+        _: (&Vertex, &Vertex),
+        _: &mut Vec<StateVar>,
+        _: &StateModel,
+    ) -> Result<(), TraversalModelError> {
         Ok(())
     }
 }
@@ -553,13 +783,28 @@ impl routee_compass_core::model::access::access_model::AccessModel for Declaring
     fn state_features(&self) -> Vec<(String, StateFeature)> {
         self.feats.clone()
     }
-    fn access_edge(&self, _: (&Vertex, &Edge, &Vertex, &Edge, &Vertex), _: &mut Vec<StateVar>, _: &StateModel) -> Result<(), routee_compass_core::model::access::access_model_error::AccessModelError> {
+    fn access_edge(
+        &self,
+        _: (&Vertex, &Edge, &Vertex, &Edge, &Vertex),
+        _: &mut Vec<StateVar>,
+        _: &StateModel,
+    ) -> Result<(), routee_compass_core::model::access::access_model_error::AccessModelError> {
         Ok(())
     }
 }
-impl routee_compass_core::model::access::access_model_service::AccessModelService for DeclaringAccess {
-    fn build(&self, _: &Value) -> Result<Arc<dyn routee_compass_core::model::access::access_model::AccessModel>, routee_compass_core::model::access::access_model_error::AccessModelError> {
-        Ok(Arc::new(DeclaringAccess { feats: self.feats.clone() }))
+impl routee_compass_core::model::access::access_model_service::AccessModelService
+    for DeclaringAccess
+{
+    fn build(
+        &self,
+        _: &Value,
+    ) -> Result<
+        Arc<dyn routee_compass_core::model::access::access_model::AccessModel>,
+        routee_compass_core::model::access::access_model_error::AccessModelError,
+    > {
+        Ok(Arc::new(DeclaringAccess {
+            feats: self.feats.clone(),
+        }))
     }
 }
 struct DeclaringService {
@@ -567,7 +812,9 @@ struct DeclaringService {
 }
 impl TraversalModelService for DeclaringService {
     fn build(&self, _: &Value) -> Result<Arc<dyn TraversalModel>, TraversalModelError> {
-        Ok(Arc::new(DeclaringModel { feats: self.feats.clone() }))
+        Ok(Arc::new(DeclaringModel {
+            feats: self.feats.clone(),
+        }))
     }
 }
 
@@ -583,9 +830,15 @@ fn state_models(st: &mut Stats, tier: Tier) {
                 if n >= 5 {
                     st.nontrivial += 1;
                 }
-                let feats: Vec<Feat> = (0..n).map(|i| alpha[(start + i * stride) % alpha.len()].clone()).collect();
+                let feats: Vec<Feat> = (0..n)
+                    .map(|i| alpha[(start + i * stride) % alpha.len()].clone())
+                    .collect();
                 let names: Vec<String> = (0..n).map(|i| format!("f{}", i)).collect();
-                let pairs: Vec<(String, StateFeature)> = names.iter().cloned().zip(feats.iter().map(|f| f.feature())).collect();
+                let pairs: Vec<(String, StateFeature)> = names
+                    .iter()
+                    .cloned()
+                    .zip(feats.iter().map(|f| f.feature()))
+                    .collect();
                 let desc: Vec<Value> = feats.iter().map(|f| f.json()).collect();
                 // route 1: new
                 {
@@ -595,8 +848,16 @@ fn state_models(st: &mut Stats, tier: Tier) {
                     let d = desc.clone();
                     let case = move || json!({"route": "StateModel::new", "features": d});
                     match guarded(|| StateModel::new(pairs.clone())) {
-                        Ok(sm) => check_model(st, "state_model.new", &sm, &names, &feats, true, &case),
-                        Err(p) => st.violation("state_model.new", "no_panic", n as u64, || p.clone(), &case),
+                        Ok(sm) => {
+                            check_model(st, "state_model.new", &sm, &names, &feats, true, &case)
+                        }
+                        Err(p) => st.violation(
+                            "state_model.new",
+                            "no_panic",
+                            n as u64,
+                            || p.clone(),
+                            &case,
+                        ),
                     }
                 }
                 // route 2: empty().extend(all) and split extends (k then rest), with an overwrite of an equal-typed feature
@@ -607,7 +868,9 @@ fn state_models(st: &mut Stats, tier: Tier) {
                     let d = desc.clone();
                     let case = move || json!({"route": "StateModel::extend", "split": split, "features": d});
                     let r = guarded(|| -> Result<StateModel, String> {
-                        let first = StateModel::empty().extend(pairs[..split].to_vec()).map_err(|e| e.to_string())?;
+                        let first = StateModel::empty()
+                            .extend(pairs[..split].to_vec())
+                            .map_err(|e| e.to_string())?;
                         let mut rest = pairs[split..].to_vec();
                         // re-declare the first feature again (same type): must overwrite in place
                         if split > 0 {
@@ -616,9 +879,23 @@ fn state_models(st: &mut Stats, tier: Tier) {
                         first.extend(rest).map_err(|e| e.to_string())
                     });
                     match r {
-                        Ok(Ok(sm)) => check_model(st, "state_model.extend", &sm, &names, &feats, true, &case),
-                        Ok(Err(e)) => st.violation("state_model.extend", "extend_ok", n as u64, || e.clone(), &case),
-                        Err(p) => st.violation("state_model.extend", "no_panic", n as u64, || p.clone(), &case),
+                        Ok(Ok(sm)) => {
+                            check_model(st, "state_model.extend", &sm, &names, &feats, true, &case)
+                        }
+                        Ok(Err(e)) => st.violation(
+                            "state_model.extend",
+                            "extend_ok",
+                            n as u64,
+                            || e.clone(),
+                            &case,
+                        ),
+                        Err(p) => st.violation(
+                            "state_model.extend",
+                            "no_panic",
+                            n as u64,
+                            || p.clone(),
+                            &case,
+                        ),
                     }
                 }
                 // route 3: TryFrom<&Value> (JSON object, key order preserved)
@@ -634,16 +911,43 @@ fn state_models(st: &mut Stats, tier: Tier) {
                     let vc = v.clone();
                     let case = move || json!({"route": "StateModel::try_from(json)", "json": vc});
                     match guarded(|| StateModel::try_from(&v).map_err(|e| e.to_string())) {
-                        Ok(Ok(sm)) => check_model(st, "state_model.try_from_json", &sm, &names, &feats, true, &case),
-                        Ok(Err(e)) => st.violation("state_model.try_from_json", "build_ok", n as u64, || e.clone(), &case),
-                        Err(p) => st.violation("state_model.try_from_json", "no_panic", n as u64, || p.clone(), &case),
+                        Ok(Ok(sm)) => check_model(
+                            st,
+                            "state_model.try_from_json",
+                            &sm,
+                            &names,
+                            &feats,
+                            true,
+                            &case,
+                        ),
+                        Ok(Err(e)) => st.violation(
+                            "state_model.try_from_json",
+                            "build_ok",
+                            n as u64,
+                            || e.clone(),
+                            &case,
+                        ),
+                        Err(p) => st.violation(
+                            "state_model.try_from_json",
+                            "no_panic",
+                            n as u64,
+                            || p.clone(),
+                            &case,
+                        ),
                     }
                 }
                 // route 4: SearchApp::build_search_instance: k configured + (n-k) model features + a query override of one model feature
                 if *stride == 1 || tier == Tier::Thorough {
                     // `listed_twice`: the access model lists the overridden feature as well (the same declaration as the traversal
                     // model's): one slot, and the override still decides its unit and initial value
-                    for (k, other_unit, listed_twice) in [(0usize, false, false), (n / 2, false, false), (0, true, false), (n / 2, true, false), (0, false, true), (n / 2, true, true)] {
+                    for (k, other_unit, listed_twice) in [
+                        (0usize, false, false),
+                        (n / 2, false, false),
+                        (0, true, false),
+                        (n / 2, true, false),
+                        (0, false, true),
+                        (n / 2, true, true),
+                    ] {
                         if n == 0 {
                             continue;
                         }
@@ -651,7 +955,12 @@ fn state_models(st: &mut Stats, tier: Tier) {
                             continue;
                         }
                         // the override may also name another unit of the same kind (the next one in the unit list)
-                        if other_unit && !matches!(&feats[n - 1], Feat::Dist(..) | Feat::Time(..) | Feat::Energy(..)) {
+                        if other_unit
+                            && !matches!(
+                                &feats[n - 1],
+                                Feat::Dist(..) | Feat::Time(..) | Feat::Energy(..)
+                            )
+                        {
                             continue;
                         }
                         st.evaluations += 1;
@@ -669,29 +978,59 @@ fn state_models(st: &mut Stats, tier: Tier) {
                                 all[(i + other as usize) % all.len()]
                             }
                             let overridden = match &feats[last] {
-                                Feat::Dist(u, _) => Feat::Dist(next(&crate::refmodel::units::DISTANCE_UNITS, u, other_unit), 99.0),
-                                Feat::Time(u, _) => Feat::Time(next(&crate::refmodel::units::TIME_UNITS, u, other_unit), 99.0),
-                                Feat::Energy(u, _) => Feat::Energy(next(&crate::refmodel::units::ENERGY_UNITS, u, other_unit), 99.0),
+                                Feat::Dist(u, _) => Feat::Dist(
+                                    next(&crate::refmodel::units::DISTANCE_UNITS, u, other_unit),
+                                    99.0,
+                                ),
+                                Feat::Time(u, _) => Feat::Time(
+                                    next(&crate::refmodel::units::TIME_UNITS, u, other_unit),
+                                    99.0,
+                                ),
+                                Feat::Energy(u, _) => Feat::Energy(
+                                    next(&crate::refmodel::units::ENERGY_UNITS, u, other_unit),
+                                    99.0,
+                                ),
                                 Feat::F64(_) => Feat::F64(99.0),
                                 Feat::I64(_) => Feat::I64(99),
                                 Feat::U64(_) => Feat::U64(99),
                                 Feat::Bool(b) => Feat::Bool(!*b),
                             };
-                            query = json!({"state_features": {names[last].clone(): overridden.json()}});
+                            query =
+                                json!({"state_features": {names[last].clone(): overridden.json()}});
                             feats2[last] = overridden;
                         }
                         let d = desc.clone();
                         let q = query.clone();
                         let case = move || json!({"route": "SearchApp::build_search_instance", "configured": k, "features": d, "query": q, "access_model_lists_the_overridden_feature_too": listed_twice});
-                        let access_feats: Vec<(String, StateFeature)> = if listed_twice { vec![pairs[n - 1].clone()] } else { vec![] };
-                        let weights: HashMap<String, f64> = names.iter().map(|n| (n.clone(), 1.0)).collect();
+                        let access_feats: Vec<(String, StateFeature)> = if listed_twice {
+                            vec![pairs[n - 1].clone()]
+                        } else {
+                            vec![]
+                        };
+                        let weights: HashMap<String, f64> =
+                            names.iter().map(|n| (n.clone(), 1.0)).collect();
                         let r = guarded(|| -> Result<Arc<StateModel>, String> {
                             let app = SearchApp {
                                 search_algorithm: SearchAlgorithm::Dijkstra,
-                                directed_graph: Arc::new(crate::world::net::Net { n: 1, edges: vec![], xy: None }.graph()),
+                                directed_graph: Arc::new(
+                                    crate::world::net::Net {
+                                        n: 1,
+                                        edges: vec![],
+                                        xy: None,
+                                    }
+                                    .graph(),
+                                ),
                                 state_model: Arc::new(StateModel::new(configured.clone())),
-                                traversal_model_service: Arc::new(DeclaringService { feats: model_feats.clone() }),
-                                access_model_service: if access_feats.is_empty() { Arc::new(NoAccessModel {}) } else { Arc::new(DeclaringAccess { feats: access_feats.clone() }) },
+                                traversal_model_service: Arc::new(DeclaringService {
+                                    feats: model_feats.clone(),
+                                }),
+                                access_model_service: if access_feats.is_empty() {
+                                    Arc::new(NoAccessModel {})
+                                } else {
+                                    Arc::new(DeclaringAccess {
+                                        feats: access_feats.clone(),
+                                    })
+                                },
                                 cost_model_service: Arc::new(CostModelService {
                                     vehicle_rates: Arc::new(HashMap::new()),
                                     network_rates: Arc::new(HashMap::new()),
@@ -700,15 +1039,46 @@ fn state_models(st: &mut Stats, tier: Tier) {
                                     ignore_unknown_weights: true,
                                 }),
                                 frontier_model_service: Arc::new(NoRestriction {}),
-                                termination_model: Arc::new(TerminationModel::IterationsLimit { limit: 10 }),
+                                termination_model: Arc::new(TerminationModel::IterationsLimit {
+                                    limit: 10,
+                                }),
                             };
-                            let si = app.build_search_instance(&query).map_err(|e| e.to_string())?;
+                            let si = app
+                                .build_search_instance(&query)
+                                .map_err(|e| e.to_string())?;
                             Ok(si.state_model.clone())
                         });
                         match r {
-                            Ok(Ok(sm)) => check_model(st, "state_model.search_instance", &sm, &names, &feats2, false, &case),
-                            Ok(Err(e)) => st.violation(&format!("state_model.search_instance.n{}", if n > 5 { "6plus".to_string() } else { n.to_string() }), "build_ok", n as u64, || e.clone(), &case),
-                            Err(p) => st.violation("state_model.search_instance", "no_panic", n as u64, || p.clone(), &case),
+                            Ok(Ok(sm)) => check_model(
+                                st,
+                                "state_model.search_instance",
+                                &sm,
+                                &names,
+                                &feats2,
+                                false,
+                                &case,
+                            ),
+                            Ok(Err(e)) => st.violation(
+                                &format!(
+                                    "state_model.search_instance.n{}",
+                                    if n > 5 {
+                                        "6plus".to_string()
+                                    } else {
+                                        n.to_string()
+                                    }
+                                ),
+                                "build_ok",
+                                n as u64,
+                                || e.clone(),
+                                &case,
+                            ),
+                            Err(p) => st.violation(
+                                "state_model.search_instance",
+                                "no_panic",
+                                n as u64,
+                                || p.clone(),
+                                &case,
+                            ),
                         }
                     }
                 }
@@ -726,7 +1096,10 @@ pub fn run(tier: Tier) -> i32 {
     let mut st = Stats::new();
     let nkeys = tier.pick(7u8, 8u8);
     container_bfs(&mut st, nkeys);
-    st.sample(2, || json!({"kind": "insert_history", "keys_inserted_in_order": [3, 1, 4, 1, 5, 0, 2, 6]}));
+    st.sample(
+        2,
+        || json!({"kind": "insert_history", "keys_inserted_in_order": [3, 1, 4, 1, 5, 0, 2, 6]}),
+    );
     container_ctor(&mut st, nkeys, tier);
     state_models(&mut st, tier);
     finish(
@@ -747,7 +1120,8 @@ pub fn replay(case: &Value) -> i32 {
     let mut st = Stats::new();
     match case["kind"].as_str() {
         Some("insert_history") => {
-            let keys: Vec<u8> = serde_json::from_value(case["keys_inserted_in_order"].clone()).unwrap_or_default();
+            let keys: Vec<u8> =
+                serde_json::from_value(case["keys_inserted_in_order"].clone()).unwrap_or_default();
             let mut m: Map = CompactOrderedHashMap::empty();
             let mut r: Ref = vec![];
             for (i, k) in keys.iter().enumerate() {
